@@ -308,7 +308,14 @@ def rule_operands(ctx, R, F):
                 exp = 'L3'
             else:
                 exp = 'mem?L1:L2'
-            R.check(cls == exp, inst + ' level', where, expected=exp, found=cls, rule='MEM-LEVEL')
+            def on_path(x):
+                # `mod.mem ? L1 : L2` written as a conditional expression or as two branches is the same thing: resolve it with the path's own decision
+                if x == 'mem?L1:L2':
+                    for a_, t_ in p['conds']:
+                        if a_.strip('()').startswith('getModMem'):
+                            return 'L1' if t_ else 'L2'
+                return x
+            R.check(on_path(cls) == on_path(exp), inst + ' level', where, expected=on_path(exp), found=on_path(cls), rule='MEM-LEVEL')
         if b['name'] == 'IADD_RS':
             sh = fl.get('shift', {}).get('nodes', [])
             oksh = len(sh) == 1 and strip_all(sh[0]['r'])['k'] == 'Call' and strip_all(sh[0]['r']).get('name') == 'getModShift'
@@ -328,10 +335,19 @@ def rule_operands(ctx, R, F):
             okimm = r0 is not None and r0['k'] == 'Bin' and r0['op'] == '&' and val(r0['r']) == 63 and strip_all(r0['l']).get('name') == 'getImm32'
             R.check(okimm, inst + ' imm', where, expected='imm = imm32 & 63', found=[showv(n['r']) for n in immn])
     # mod.* accessors, Table 5.1.3
-    for name, exp in (('getModMem', '(this->mod % 4)'), ('getModShift', '((this->mod >> 2) % 4)'), ('getModCond', '(this->mod >> 4)')):
+    from domains import KB as _KB, KBEval as _KBEval
+    for name, ref_, exp in (('getModMem', lambda m: m % 4, 'mod % 4'), ('getModShift', lambda m: (m >> 2) % 4, '(mod >> 2) % 4'), ('getModCond', lambda m: m >> 4, 'mod >> 4')):
         f = F.func('randomx::Instruction::' + name)
-        rets = [x for x in walk(f['body']) if x['k'] == 'Return']
-        R.check(len(rets) == 1 and show(rets[0]['e']) == exp, 'Instruction::' + name, '%s:%d' % (f['file'], f['line']), expected=exp, found=show(rets[0]['e']) if rets else None, rule='MEM-LEVEL')
+        bad = None
+        for m in range(256):
+            r = _KBEval(F, {'this->mod': _KB.const(8, m)}).run_body(f)
+            v = r.value() if r is not None else None
+            if v is None:
+                raise AnalysisBroken('MEM-LEVEL: cannot evaluate Instruction::%s for mod = %d' % (name, m))
+            if v != ref_(m):
+                bad = (m, v)
+                break
+        R.check(bad is None, 'Instruction::' + name, '%s:%d' % (f['file'], f['line']), expected='%s for all 256 values of mod' % exp, found='mod = %d gives %d' % bad if bad else 'equal for all 256 values', rule='MEM-LEVEL')
     R.eq('StoreL3Condition', 'src/common.hpp', 14, F.const('randomx::StoreL3Condition'), rule='MEM-LEVEL')
     modf = [x for x in F.record('randomx::Instruction')['fields'] if x['name'] == 'mod']
     R.check(bool(modf) and modf[0]['ty'] == 'unsigned char', 'Instruction::mod is 8 bits', 'src/instruction.hpp', expected='unsigned char', found=modf[0]['ty'] if modf else None, rule='MEM-LEVEL')
